@@ -196,7 +196,7 @@ func Explore(cfg *harness.Config, rep *harness.Report, p *pool.Pool, specs []Spe
 				if r.Hung {
 					kind = "hung"
 				}
-				rep.Violate(harness.Violation{Sig: "process-" + kind + journalClass(r.Stderr) + ":" + crashSite(r.Stderr), Detail: fmt.Sprintf("worker %s while executing %s: %s", kind, histString(c.hist), tail(r.Stderr, 400000)), Replay: rp})
+				rep.Violate(harness.Violation{Sig: "process-" + kind + journalClass(r.Stderr) + ":" + crashSite(r.Stderr), Detail: fmt.Sprintf("worker %s while executing %s: %s", kind, histString(c.hist), tail(HarnessFirst(r.Stderr), 400000)), Replay: rp})
 				return
 			}
 			if r.Err != "" {
@@ -356,6 +356,25 @@ func journalClass(stderr string) string {
 
 // crashSite extracts a short stable description of where a worker died from
 // its stderr (first frame inside the repository after the panic line).
+// HarnessFirst reorders a goroutine dump so that the goroutines running harness
+// code (package main) come first: they say what the worker was waiting for.
+func HarnessFirst(stderr string) string {
+	blocks := strings.Split(stderr, "\n\n")
+	var first, rest []string
+	for _, b := range blocks {
+		if strings.HasPrefix(b, "goroutine ") && strings.Contains(b, "\nmain.") {
+			first = append(first, b)
+		} else {
+			rest = append(rest, b)
+		}
+	}
+	if len(first) == 0 {
+		return stderr
+	}
+	// tail() keeps the end: the harness goroutines go last
+	return strings.Join(rest, "\n\n") + "\n\n==== goroutines running harness code ====\n\n" + strings.Join(first, "\n\n")
+}
+
 func crashSite(stderr string) string {
 	lines := strings.Split(stderr, "\n")
 	kind := "unknown"
